@@ -44,6 +44,7 @@ def run(ctx, proto, st=None, I=None):
         m0 = len(I.events)
         # (a lazily computed cache going from None to its value is not a change of fitted state)
         before = {k: v.term for k, v in st.heap.get(o.obj.id, {}).items() if v.kind not in ("none", "undef")} if getattr(o, "obj", None) is not None else {}
+        before_names = set(st.heap.get(o.obj.id, {})) if getattr(o, "obj", None) is not None else set()
         r = ctx.call_method(I, st, o, meth, *args, **kwargs)
         out.append((meth, r, m0, len(I.events)))
         if meth in ("fit", "fit_transform") and getattr(o, "obj", None) is not None:
@@ -52,7 +53,10 @@ def run(ctx, proto, st=None, I=None):
         if meth not in ("fit", "fit_transform", "set_params", "partial_fit") and getattr(o, "obj", None) is not None:
             after = st.heap.get(o.obj.id, {})
             changed = sorted(k for k, t in before.items() if k in after and after[k].term != t and ((k.endswith("_") and not k.startswith("_")) or (k.startswith("_") and not k.startswith("__") and k in fitted_private)))
-            I._reader_changes.append((meth, changed))
+            # a reader that leaves a new array behind on the estimator (a result buffer kept for re-use) hands out
+            # storage that its next call overwrites
+            created = sorted(k for k, v in after.items() if k not in before_names and v.kind == "arr")
+            I._reader_changes.append((meth, changed + [f"{k} (created)" for k in created]))
     return I, st, o, out
 
 
@@ -83,6 +87,9 @@ def selector_protocols():
             X, y = XY()
             X2, y2 = XY(sfx="2")
             steps = [("fit", (X, y), {}), ("fit", (X, y), {"warm_start": True}), ("get_support", (), {}), ("get_support", (), {"indices": True})]
+            if "FPS" in cname:
+                # the distance read-outs, before and after a warm start
+                steps = [("fit", (X, y), {}), ("get_select_distance", (), {}), ("get_distance", (), {}), ("fit", (X, y), {"warm_start": True}), ("get_select_distance", (), {}), ("get_support", (), {}), ("get_support", (), {"indices": True})]
             if pkg == "feature":
                 steps.append(("transform", (arr("Xt", "V", "M"),), {}))
             ctor = dict(kw)
@@ -296,3 +303,15 @@ def rigidity_protocols():
         ("local_prediction_rigidity", "skmatter.metrics.local_prediction_rigidity"),
         ("componentwise_prediction_rigidity", "skmatter.metrics.componentwise_prediction_rigidity"),
     ]
+
+
+def reader_state_obligations(ctx, rule, prefix, cls):
+    """every non-fit method of the protocols whose name starts with `prefix` leaves the fitted state as fit produced it
+    and keeps no result buffer on the estimator"""
+    P = ctx.P
+    for p_ in all_class_protocols():
+        if not p_.name.startswith(prefix):
+            continue
+        Ip, sp_, op_, _res = run(ctx, p_)
+        for meth_, changed_ in getattr(Ip, "_reader_changes", []):
+            ctx.ob(rule, f"{p_.name}.{meth_} leaves the fitted state untouched", not changed_, f"attributes rewritten / created: {changed_}" if changed_ else "no fitted attribute changed", ctx.site(P.method(cls, meth_)), p_.name)
